@@ -95,7 +95,7 @@ def _dc_case(draw):
     npos = draw(st.integers(0, n))
     kw = draw(st.permutations(fields[npos:]))
     bad = draw(st.sampled_from([None, None, None, None, None, None, "unknown", "surplus", "starred", "spread", "twice"]))
-    style = draw(st.sampled_from(["dataclass", "namedtuple"]))
+    style = draw(st.sampled_from(["dataclass", "dataclass", "namedtuple", "namedtuple", "namedtuple-sub", "namedtuple-sub2"]))
     variant = draw(st.sampled_from([None, None, "init_false", "kw_only_first", "defaults", "defaults"])) if style == "dataclass" else None
     via = draw(st.sampled_from([None, None, "helper-twice", "called-lambda-twice"]))
     case = {"kind": "dc", "style": style, "fields": fields, "pos": npos, "kw": [], "bad": bad, "variant": variant, "via": via}
@@ -257,6 +257,11 @@ def _dc_module(case):
         cls = "from dataclasses import dataclass, field\n@dataclass\nclass C:\n" + "".join(lines)
     else:
         cls = "from typing import NamedTuple\nclass C(NamedTuple):\n" + "".join(f"    {f}: float\n" for f in fields)
+        if case["style"] == "namedtuple-sub":
+            # the usual way to give a named tuple methods: derive from it (tuple is then an indirect base only)
+            cls = cls.replace("class C(NamedTuple):", "class B_(NamedTuple):") + "class C(B_):\n    def total(self):\n        return 0\n"
+        elif case["style"] == "namedtuple-sub2":
+            cls = f"from collections import namedtuple\nclass C(namedtuple('C', {fields!r})):\n    def total(self):\n        return 0\n"
     order = _sig_order(case)
     fields = order
     pos = [ARGS[f] for f in fields[: case["pos"]]]
